@@ -89,6 +89,7 @@ type Frame struct {
 	visits map[*ssa.BasicBlock]int
 	// when the frame is a deferred call executed during RunDefers/panic: what to do after
 	afterDefer bool
+	recovering bool
 	native     func(st *State, ret Value) // optional continuation invoked with the return value
 }
 
